@@ -43,6 +43,11 @@ def main(tier, replay):
             for cd in ((0, 1, 2) if n == 'p1' else (order % 3,)):
                 J('crosstype-%s-o%d-c%d' % (n, order, cd), n, 'HarnessCrossType', [order, 1, cd, 1 + cd % 2], 0)
                 jobs[-1]['opt'].update(pool_stale=0, monitor_pool=False, monitor_globals=False)
+    # ---- two writers created from one option slice with spare capacity, more records than the page size
+    for n in ('p1', 'p4'):
+        for cd in (0, 1, 2):
+            J('shared-options-%s-c%d' % (n, cd), n, 'HarnessSharedOptions', [5, 1, 1, cd, 2], 0)
+            jobs[-1]['opt'].update(monitor_pool=False, monitor_globals=False, fixed_hdr=True)  # equal structs must get equal abstract lengths
     # ---- error paths: an instance whose sink fails at a symbolic call index, pool monitor on
     for n in ('p1', 'p4'):
         for cd in (0, 1, 2):
@@ -54,7 +59,7 @@ def main(tier, replay):
     mr = sum((jr.get('reach') or {}).get('map-range-over-2+-entries', 0) for j, jr, x in c.jobs)
     c.extra['map_ranges_over_two_or_more_entries_executed'] = mr
     c.extra['schedules'] = 'NOT explored symbolically: goroutine interleavings are outside this claim; race freedom is argued from (no access after Put) + (no write to memory reachable from package-level variables outside init) + A5. A monitor finding is confirmed natively by running separate instances on goroutines under the Go race detector (dynamic, not exhaustive)'
-    c.bounds = {'other record types': 'for p1, p2, p4: a writer and a reader instance of a record type with the same column names and different physical types run first (or between two instances), then the C01 and C02 oracles on this type', 'error paths': 'an instance whose sink fails at any call index (3 records, page size 2, each codec) under the pool monitor; natively a healthy instance before and after it', 'workloads': '2 batches x 2 fixed-structure records with symbolic values, page size 1 and 2, each codec; whole pipeline with 2 records', 'pool pre-state': 'every buffer returned by either pool has capacity 0, 5 or 64 and arbitrary (symbolic) stale content',
+    c.bounds = {'other record types': 'for p1, p2, p4: a writer and a reader instance of a record type with the same column names and different physical types run first (or between two instances), then the C01 and C02 oracles on this type', 'shared options': 'two writers created from one option slice (len 2, cap 4), 5 and 6 records at page size 2, interleaved', 'error paths': 'an instance whose sink fails at any call index (3 records, page size 2, each codec) under the pool monitor; natively a healthy instance before and after it', 'workloads': '2 batches x 2 fixed-structure records with symbolic values, page size 1 and 2, each codec; whole pipeline with 2 records', 'pool pre-state': 'every buffer returned by either pool has capacity 0, 5 or 64 and arbitrary (symbolic) stale content',
                 'outside': 'interleavings of goroutines (the schedules half of the property); pools handing one buffer to two owners (A5)'}
     c.assumptions = [STUB_ASSUMPTIONS[k] for k in ('A1', 'A3', 'A4', 'A5', 'A6')]
     c.finish('paths = capacity choices of the recycled buffers x page-size outcomes; stale bytes and record values symbolic; a path is non-trivial when at least one obligation went to the solver (a byte mentioning a stale variable triggers the 2-safety query; on the unchanged tree no output byte mentions one, which the run measures)',
